@@ -9,8 +9,9 @@ from . import absstate, tlc
 ROOT, OUT, NONE = 99, 98, 97
 
 
-def consts(data, outl=True, d1=False, d2=False, d3=False, maxname=7, dump=False):
+def consts(data, outl=True, d1=False, d2=False, d3=False, maxname=7, dump=False, host_edits=False, shared=False):
     return {"Data": tlc.tla_set(data), "OutliersOn": tlc.tla_bool(outl), "DropUpdateOnRemoveDP": tlc.tla_bool(d1),
+            "HostEdits": tlc.tla_bool(host_edits), "SharedPayloads": tlc.tla_bool(shared),
             "DropUpdateOnGraft": tlc.tla_bool(d2), "RelabelKeepsKeys": tlc.tla_bool(d3), "MaxName": maxname,
             "DumpEdges": tlc.tla_bool(dump)}
 
